@@ -2469,9 +2469,10 @@ class EvalExceptionFormatter:
                     ctx = frame.f_locals.get("self")
                     self.current_code_list = ctx.code_list
                     self.current_filename = ctx.global_ctx.get_file_path() or ctx.filename
-                    self.lineno = self.exc.lineno
-                    self.col_offset = self.exc.offset - 1
-                    self.end_col_offset = self.exc.end_offset - 1
+                    # (the position fields are None for some errors, eg, source with a NUL byte)
+                    self.lineno = self.exc.lineno or 1
+                    self.col_offset = (self.exc.offset or 1) - 1
+                    self.end_col_offset = (self.exc.end_offset or self.exc.offset or 1) - 1
                     self.ast_frame(ctx)
                     # cancel frames from ast.py
                     return
